@@ -539,7 +539,7 @@ class FA:
         for p in self.params:
             if p == self.selfname:
                 st.env[p] = AV(DEEP, func=('class', self.ci)) if self.is_classmethod else AV(SHARED, [(p, TOP)], cls=self.ci)
-            elif p in self.consts:
+            elif p in self.consts and not p.startswith('@'):
                 st.env[p] = AV(DEEP, const=('c', self.consts[p]))
             elif p in self.constructors:
                 st.env[p] = AV(DEEP, func=('ctor', p))
@@ -550,6 +550,13 @@ class FA:
             st.env[a.vararg.arg] = AV(SHALLOW, [(a.vararg.arg, ANY)], new_cell())
         if a.kwarg:
             st.env[a.kwarg.arg] = AV(SHALLOW, [(a.kwarg.arg, ANY)], new_cell())
+        for c in self.consts:
+            if c.startswith('@not:'):
+                _, n, t = c.split(':', 2)
+                st.known['notinst:%s:%s' % (n, t)] = (IMM, frozenset([n]))
+            elif c.startswith('@in:'):
+                _, k, x = c.split(':', 2)
+                st.known['%s in %s' % (k, x)] = (IMM, frozenset([k, x]))
         self.block(st, front.strip_doc(self.node.body))
         if not st.dead:
             self.returns.append(IMM)
@@ -981,6 +988,21 @@ class FA:
                 for v in test.values:
                     self.learn(st, v, truth)
             return
+        if isinstance(test, ast.Compare) and len(test.ops) == 1 and isinstance(test.ops[0], (ast.In, ast.NotIn)) \
+                and isinstance(test.left, ast.Name) and isinstance(test.comparators[0], ast.Name):
+            if truth == isinstance(test.ops[0], ast.In):
+                k, x = test.left.id, test.comparators[0].id
+                xv = st.env.get(x)
+                builtin_contains = xv is not None and (xv.cls is None or (self.ix.lookup(xv.cls, '__contains__') or ('builtin',))[0] == 'builtin')
+                if builtin_contains:
+                    st.known['%s in %s' % (k, x)] = (IMM, frozenset([k, x]))
+            return
+        if isinstance(test, ast.Call) and isinstance(test.func, ast.Name) and test.func.id == 'isinstance' and len(test.args) == 2 and not truth \
+                and isinstance(test.args[0], ast.Name):
+            t = test.args[1]
+            for nm in ([ast.unparse(x) for x in t.elts] if isinstance(t, ast.Tuple) else [ast.unparse(t)]):
+                st.known['notinst:%s:%s' % (test.args[0].id, nm)] = (IMM, frozenset([test.args[0].id]))
+            return
         if isinstance(test, ast.Compare) and len(test.ops) == 1 and isinstance(test.ops[0], (ast.Eq, ast.Is)) and truth:
             l, r = test.left, test.comparators[0]
             if all(isinstance(x, ast.Call) and isinstance(x.func, ast.Name) and x.func.id == 'type' and len(x.args) == 1 for x in (l, r)):
@@ -1069,6 +1091,10 @@ class FA:
 
     def call_value(self, st, e, fv, A, label):
         k = fv.func
+        if k is None and fv.cls is not None:
+            hit = self.ix.lookup(fv.cls, '__call__')
+            if hit and hit[0] != 'builtin':
+                return self.call_method(st, e, hit, fv, A, '__call__', recv_expr=e.func if isinstance(e.func, ast.Name) else None)
         if k is None:
             return self.unknown_call(st, e, label, A, None, callback=True)
         if k[0] == 'func':
@@ -1131,10 +1157,32 @@ class FA:
         S = self.an.summary(mi, qual, fnode, ci, consts)
         return self.apply(st, e, S, fnode, pos, kw, pos_e, kw_e, star, dstar, label)
 
+    def _facts(self, st, fnode, exprs):
+        """`K in X` / `not isinstance(N, T)` facts about actuals that are plain names, renamed to the callee's parameters"""
+        a = fnode.args
+        params = [p.arg for p in a.posonlyargs + a.args]
+        names = {}
+        for p, x in zip(params, exprs):
+            if isinstance(x, ast.Name):
+                names.setdefault(x.id, p)
+        out = []
+        for k in st.known:
+            if k.startswith('notinst:'):
+                _, n, t = k.split(':', 2)
+                if n in names:
+                    out.append(('@not:%s:%s' % (names[n], t), True))
+            elif ' in ' in k and '[' not in k and '.' not in k:
+                kk, _, xx = k.partition(' in ')
+                if kk in names and xx in names:
+                    out.append(('@in:%s:%s' % (names[kk], names[xx]), True))
+        return tuple(sorted(out))
+
     def call_method(self, st, e, hit, recv, A, label, recv_expr=None):
         ci, fnode = hit
         pos, pos_e, star, kw, kw_e, dstar = A
         consts = self._consts(fnode, [recv] + pos, kw, bound=1, open_=bool(star or dstar))
+        if not (star or dstar):
+            consts = consts + self._facts(st, fnode, [recv_expr] + list(pos_e))
         S = self.an.summary(ci.mi, '%s.%s' % (ci.name, fnode.name), fnode, ci, consts)
         return self.apply(st, e, S, fnode, [recv] + pos, kw, [recv_expr] + pos_e, kw_e, star, dstar, '%s.%s' % (ci.name, label))
 
@@ -1218,10 +1266,11 @@ class FA:
             return IMM
         if key == 'type' and len(pos) == 1:
             return AV(DEEP, func=('typeof', pos[0]))
-        if key == 'isinstance' and len(pos_e) == 2 and self.an.never_types:
+        if key == 'isinstance' and len(pos_e) == 2:
             t = pos_e[1]
             names = [ast.unparse(x) for x in t.elts] if isinstance(t, ast.Tuple) else [ast.unparse(t)]
-            if names and all(n in self.an.never_types for n in names):
+            x = pos_e[0]
+            if names and all(n in self.an.never_types or (isinstance(x, ast.Name) and 'notinst:%s:%s' % (x.id, n) in st.known) for n in names):
                 return AV(DEEP, const=('c', False))
         if key in ('setattr', 'delattr') and pos:
             self.mutate(st, pos[0], e, key, '%s(%s, ...)' % (key, ast.unparse(pos_e[0])))
@@ -1492,7 +1541,12 @@ class FA:
             if r.elem is not None:
                 el = self._map_shared(r.elem, actual)
             nc = new_cell()
-            return AV(lvl, org, nc | cells, tok=tok, cls=r.cls, btypes=bt, const=r.const, elem=el, me=min(nc))
+            rcls = r.cls
+            if rcls is not None and params and actual.get(params[0]) is not None and actual[params[0]].cls is not None:
+                acls = actual[params[0]].cls
+                if rcls.key in [c.key for c in self.ix.mro(acls) if isinstance(c, ClassInfo)]:
+                    rcls = acls
+            return AV(lvl, org, nc | cells, tok=tok, cls=rcls, btypes=bt, const=r.const, elem=el, me=min(nc))
         out = self._map_shared(r, actual)
         return out.but(tok=tok or out.tok, const=r.const)
 
@@ -1779,7 +1833,30 @@ class FA:
 
     s_Continue = s_Break
 
+    def _cannot_raise_keyerror(self, st, s):
+        """try: super(...).__delitem__(k) / __getitem__(k)  [dict's own]  except KeyError: ...   with `k in self` known"""
+        if len(s.body) != 1 or not isinstance(s.body[0], (ast.Expr, ast.Return, ast.Assign)) or not s.handlers:
+            return False
+        c = s.body[0].value
+        if not (isinstance(c, ast.Call) and isinstance(c.func, ast.Attribute) and c.func.attr in ('__delitem__', '__getitem__') and len(c.args) == 1
+                and isinstance(c.args[0], ast.Name) and isinstance(c.func.value, ast.Call) and isinstance(c.func.value.func, ast.Name)
+                and c.func.value.func.id == 'super' and self.ci is not None and self.selfname):
+            return False
+        if any(h.type is None or ast.unparse(h.type) != 'KeyError' for h in s.handlers):
+            return False
+        hit = self.ix.lookup(self.ci, c.func.attr, after=self.ci)
+        if not hit or hit[0] != 'builtin' or hit[1] != 'dict':
+            return False
+        return '%s in %s' % (c.args[0].id, self.selfname) in st.known
+
     def s_Try(self, st, s):
+        if self._cannot_raise_keyerror(st, s):
+            self.block(st, s.body)
+            if s.orelse and not st.dead:
+                self.block(st, s.orelse)
+            if s.finalbody:
+                self.block(st, s.finalbody)
+            return
         s0 = st.fork()
         self.block(st, s.body)
         hs = []
@@ -1942,7 +2019,10 @@ TABLE_FUNCS = {
     'C02': [(_D, 'dictable.join', {}), (_D, 'dictable.xor', {}), (_D, 'dictable._listby', {})],
     'C06': [(_D, 'dictable.inc', {}), (_D, 'dictable.exc', {}), (_D, 'dictable.one_or_none', {}), (_D, 'dictable.__getattr__', {})],
     'C11': [(_D, 'dictable.' + m, {}) for m in ('listby', 'unlist', 'groupby', 'ungroup', 'xyz', 'unpivot')],
-    'C16': [(_A, 'dictattr.' + m, {}) for m in ('__sub__', '__and__', '__add__', '__getitem__', '__or__', 'relabel', 'keys', 'values', '__truediv__', 'copy')]
+    'C16': [(_A, 'dictattr.__sub__', {}, dict(never_types=['tuple'],
+                                               why='path precondition of C16: keys are not tuples (the tuple-path form d - (\'a\', \'b\') deletes inside a shared child '
+                                                   'and is outside the property\'s key universe)'))]
+           + [(_A, 'dictattr.' + m, {}) for m in ('__and__', '__add__', '__getitem__', '__or__', 'relabel', 'keys', 'values', '__truediv__', 'copy')]
            + [('_dict', 'Dict.__call__', {}), ('_dict', 'Dict.apply', {}), ('_dict', 'Dict.__getitem__', {})]
            + [('_ulist', 'ulist.' + m, {}) for m in ('__add__', '__sub__', '__and__', '__init__')],
 }
@@ -1952,8 +2032,16 @@ TABLE_CONTRACTS = {'_dictable:dictable.read_excel': dict(modifies=[], result=('S
 
 
 def table_report(pid):
-    """frame_report over the methods named in property pid (C01, C02, C06, C11, C16) under the stated path preconditions"""
-    return frame_report(TABLE_FUNCS[pid], contracts=TABLE_CONTRACTS, never_types=TABLE_NEVER)
+    """frame_report over the methods named in property pid (C01, C02, C06, C11, C16) under the stated path preconditions; an entry of
+    TABLE_FUNCS may carry a fourth element dict(never_types=[...], why=...) - a path precondition of that function alone, analysed with its own
+    analyzer and listed in the result as an `assumed` entry"""
+    plain = [f for f in TABLE_FUNCS[pid] if len(f) == 3]
+    out = frame_report(plain, contracts=TABLE_CONTRACTS, never_types=TABLE_NEVER)
+    for modname, qual, spec, opt in [f for f in TABLE_FUNCS[pid] if len(f) == 4]:
+        out += frame_report([(modname, qual, spec)], contracts=TABLE_CONTRACTS, never_types=TABLE_NEVER + list(opt.get('never_types', ())), protocol=False)
+        out.append(Res('%s.assumed' % qual, True, opt.get('why', 'path precondition: no value is an instance of %s' % opt.get('never_types')),
+                       modname, kind='assumed', assumed=True).as_dict())
+    return out
 
 
 if __name__ == '__main__':
